@@ -385,7 +385,13 @@ pub fn next_shape() -> u8 {
 /// allows: exact (a vector), lower bound 0 (`filter`, `take_while`, `from_fn`), lower bound 1 with
 /// more to come (`once().chain(filter)`), lower bound 1 and no upper bound (`successors`).
 pub fn shaped<T: 'static>(v: Vec<T>, shape: u8) -> Box<dyn Iterator<Item = T>> {
-    match shape % 6 {
+    match shape % 7 {
+        // a lazy iterator whose items are computed by code that uses the tracing API itself (it
+        // asks for the thread's current context; nothing is recorded)
+        6 => Box::new(v.into_iter().map(|x| {
+            let _ = SpanContext::current_local_parent();
+            x
+        })),
         0 => Box::new(v.into_iter()),
         1 => Box::new(v.into_iter().filter(|_| true)),
         2 => {
